@@ -5,7 +5,10 @@ import json, os, subprocess, sys, time, tempfile, shutil, re, hashlib, collectio
 from . import build as B
 
 VERIF = B.VERIF
-NWORK = int(os.environ.get("VERIF_WORKERS", "16"))
+# two cores are left to the orchestrator, the runtime's sysmon threads and the OS: a worker whose
+# thread is descheduled for >10 ms gets a cooperative preemption request, which can reorder
+# goroutines woken at the same instant
+NWORK = int(os.environ.get("VERIF_WORKERS", str(max(1, (os.cpu_count() or 4) - 2))))
 
 def worker_env():
     e = dict(os.environ)
